@@ -68,3 +68,6 @@ pub use nogc::NOGC_CONSTRAINTS;
 pub use pageprotect::PP_CONSTRAINTS;
 pub use semispace::SS_CONSTRAINTS;
 pub use sticky::immix::STICKY_IMMIX_CONSTRAINTS;
+
+#[cfg(feature = "mmtk_verif")]
+pub(crate) use barriers::{BarrierSemantics as VerifBarrierSemantics, ObjectBarrier as VerifObjectBarrier};
